@@ -230,6 +230,10 @@ def rule_oss_samefd(ctx, cfg, F):
         R.violate("%s:accept-count" % f.path, "%d accept calls" % len(accs), f.path, f.loc(0), config=cfg)
         return
     ab, at = accs[0]
+    recursive = [b for b, t in f.calls() if strip_generics(callee_name(t)) == strip_generics(f.path)]
+    if recursive:
+        R.violate("%s:accept-in-loop" % f.path, "accept() calls itself after a connection that did not deliver its first message: it then waits in accept(2) for a client that may never come "
+                  "(the one-shot name is spent on the peer that went away), where the reference reports the error", f.path, f.loc(recursive[0]), config=cfg)
     if any(ab in f.natural_loop(h) for h in f.loop_headers()):
         R.violate("%s:accept-in-loop" % f.path, "accept(2) sits in a loop: a server that keeps accepting after a connection did not deliver its first message waits for a client that may never come "
                   "(the one-shot name is already spent on the peer that went away), where the reference reports the error", f.path, f.loc(ab), config=cfg)
